@@ -238,6 +238,50 @@ def run_extends(ctx, i):
 
     compare_pair(ctx, "extends", shape, s1, e1, s2, e2,
                  family.Resolved(model), case, rng, classify)
+    # the same model with an own child of a derived type that claims the
+    # attribute of an inherited child (key, section, or unnamed section):
+    # composed schema and expansion are refused alike
+    if rng.random() < 0.35:
+        res0 = family.Resolved(model)
+        m3 = copy.deepcopy(model)
+        derived = [t for t in m3["types"] if t["kind"] == "section"
+                   and t.get("extends")]
+        rng.shuffle(derived)
+        for t in derived:
+            inherited = [c for c in res0.types[t["extends"]].children]
+            if not inherited:
+                continue
+            # unnamed sections first: they have no key, only the attribute
+            inherited.sort(key=lambda c: (c["name"] not in ("*", "+") or
+                                          c["kind"] in ("key", "multikey"),
+                                          rng.random()))
+            c = inherited[0] if rng.random() < 0.6 else rng.choice(inherited)
+            attr = c.get("attribute") or c["name"].replace("-", "_")
+            t["children"].append(
+                {"kind": rng.choice(["key", "multikey"]), "name": "zcvclash",
+                 "attribute": attr, "datatype": "string", "required": False,
+                 "handler": None, "default": None, "defaults": []})
+            try:
+                y1 = family.render_xml(m3)
+                y2 = family.render_xml(expand_extends(m3))
+            except Exception:  # noqa  (renderer cannot express it)
+                break
+            (t1, f1), (t2, f2) = load_schema_text(y1), load_schema_text(y2)
+            ctx.res.evaluations += 1
+            ctx.res.count("attribute_clash_pairs")
+            ctx.res.sig("extends|clash|%s|%s|%s" % (
+                c["kind"], c["name"] in ("*", "+"), t1 is None))
+            if (t1 is None) != (t2 is None):
+                ctx.res.violate(
+                    "one-schema-loads-the-other-does-not",
+                    {"family": "extends", "model": m3, "composed": y1,
+                     "expanded": y2},
+                    {"composed": f1 or "loads"}, {"expanded": f2 or "loads"},
+                    detail="own child claims inherited attribute %r of %s "
+                    "%r: composed=%s expanded=%s" % (attr, c["kind"],
+                                                     c["name"], f1, f2),
+                    vsig="clash|%s|%s" % (c["kind"], t1 is None))
+            break
 
 
 # ---------------------------------------------------------------------------
